@@ -438,6 +438,103 @@ for call in ('propose', 'propose_codebook_replace'):
 if n3_ok == 0 or n3_err == 0:
     ck.inconclusive.append(f'vacuous: N3 accepted on {n3_ok} paths, refused on {n3_err}')
 
+# ------------------------------------------------------------------ N4: an installed snapshot survives a restart
+ck.declare('N4_installed_snapshot_is_durable', 'install_snapshot_entries(metadata, entries) on a follower with the real WAL, pre-log 0..1 entries, snapshot of 1..2 entries',
+           'Ok => the log rebuilt by from_wal equals the in-memory log (the entries the node now answers for) and the recovered term is the in-memory term')
+ex2.extra_models['SnapshotState::cancel_receive'] = lambda c: UNIT
+ex2.extra_models['<SnapshotMetadata as Clone>::clone'] = lambda c: c.args[0].load(c.st)       # the copy is only stored
+ex2.extra_models['<RaftMembershipConfig as Clone>::clone'] = lambda c: c.args[0].load(c.st)
+n4 = 0
+for nlog in (0, 1):
+    for k in (1, 2):
+        st = ex2.new_state()
+        st.env['codec_len'] = 2
+        st.env['crc_nonzero'] = True
+        N = Node(st, nlog)
+        st.assume(z3.ULT(N.term0.v, U64(1 << 62)))
+        st.assume(z3.UGT(N.term0.v, U64(0)))
+        opened = sc2.open(st, 'node wal')
+        if len(opened) != 1 or opened[0][1] is None:
+            ck.inconclusive.append('N4: initial open failed')
+            continue
+        st = opened[0][0]
+        walobj = st.roots['wal'].load(st)
+        st.roots['node'].fields[F('RaftNode', 'wal')] = some(Ptr(Cell(val=Struct('Mutex', {'data': Cell(val=walobj)})), 0),
+                                                             'std::option::Option<std::sync::Arc<parking_lot::lock_api::Mutex<parking_lot::RawMutex, raft_wal::RaftWal>>>')
+        r0 = Enum('RaftWalEntry', TV, {('TermAndVote', 0): Int(N.term0.v, False),
+                                       ('TermAndVote', 1): Enum('std::option::Option<std::string::String>', N.vote0_disc, {('Some', 0): N.vote0_some})}, variant='TermAndVote')
+        outs = [o for o in sc2.append(st, r0, 'prior term/vote record') if o[1] is None]
+        if len(outs) != 1:
+            ck.inconclusive.append('N4: could not write the prior record')
+            continue
+        st = outs[0][0]
+        st.roots['node'].fields[F('RaftNode', 'wal')].fields[('Some', 0)].cont.val.fields['data'].val = st.roots['wal'].load(st)
+        okp = True
+        for i in range(nlog):
+            e = N.persistent(st).load(F('PersistentState', 'log'), None, st).items(st)[i]
+            rs = sc2.run(st, 'RaftNode::persist_log_entry', [st.roots['nodeptr'], ref(e)])
+            g = [r for r in rs if r.status == 'return' and r.retval.variant == 'Ok']
+            if len(g) != 1:
+                okp = False
+                break
+            st = g[0].st
+        if not okp:
+            ck.inconclusive.append('N4: could not write the pre-log')
+            continue
+        N.node = st.roots['node']
+        ents = []
+        for j in range(k):
+            e = st.fresh('LogEntry', f'snap.entries[{j}]')
+            e.load(F('LogEntry', 'term'), 'u64', st)
+            e.fields[F('LogEntry', 'index')] = Int(U64(j + 1), False)
+            ents.append(e)
+        meta = st.fresh('SnapshotMetadata', 'meta')
+        meta.fields[P.field('SnapshotMetadata', 'last_included_index')] = Int(U64(k), False)
+        lt = meta.load(P.field('SnapshotMetadata', 'last_included_term'), 'u64', st)
+        st.assume(z3.ULT(lt.v, U64(1 << 62)))
+        snap_state = N.node.load(F('RaftNode', 'snapshot_state'), 'parking_lot::lock_api::RwLock<parking_lot::RawRwLock, raft::SnapshotState>', st).fields['data'].load(0, None, st)
+        snap_state.fields[P.field('SnapshotState', 'last_snapshot')] = none('std::option::Option<raft::SnapshotMetadata>')
+        res = sc2.run(st, 'RaftNode::install_snapshot_entries', [st.roots['nodeptr'], meta, Seq('LogEntry', ents)])
+        ck.note_path_problem(res, f'N4 install_snapshot_entries log={nlog} k={k}')
+        for r in res:
+            wit = lambda m, nlog=nlog, k=k: {'snapshot_install': True, 'own': nlog, 'entries': k}
+            if r.status == 'panic':
+                ck.require(ex2, 'N4_installed_snapshot_is_durable', r.pc, None, z3.BoolVal(False), wit, lambda m, w: 'install-panic')
+                continue
+            if r.status != 'return' or r.retval.variant != 'Ok':
+                continue
+            f = r.st
+            mem = N.log(f)
+            t1 = N.term(f)
+            s3 = sc2.crash(f, len(sc2.file(f).data))
+            for (s4, wp4, e4) in sc2.open(s3, 'N4 reopen'):
+                if wp4 is None:
+                    ck.require(ex2, 'N4_installed_snapshot_is_durable', s4.pc, None, z3.BoolVal(False), wit, lambda m, w: 'node-reopen')
+                    continue
+                rr = sc2.run(s4, 'RaftRecoveryState::from_wal', [s4.roots['wal']])
+                ck.note_path_problem(rr, 'N4 from_wal')
+                for r5 in rr:
+                    if r5.status != 'return' or r5.retval.variant != 'Ok':
+                        continue
+                    rs_ = r5.retval.fields[('Ok', 0)]
+                    rec = rs_.load(P.field('RaftRecoveryState', 'recovered_log'), None, r5.st).items(r5.st)
+                    ct = rs_.load(P.field('RaftRecoveryState', 'current_term'), 'u64', r5.st).v
+                    tab = r5.st.env.get('codec', [])
+                    got = []
+                    for img in rec:
+                        items = img.items(r5.st)
+                        hit = [v for bs, v in tab if len(bs) == len(items) and all(a.v.eq(b.v) for a, b in zip(bs, items))]
+                        got.append(hit[0] if hit else None)
+                    if len(got) != len(mem) or any(g is None or not isinstance(g, Struct) for g in got):
+                        concl = z3.BoolVal(False)
+                    else:
+                        concl = z3.And([z3.And(g.load(F('LogEntry', 'term'), 'u64', r5.st).v == mt, g.load(F('LogEntry', 'index'), 'u64', r5.st).v == mi) for g, (mt, mi) in zip(got, mem)] + [z3.BoolVal(True)])
+                    ck.require(ex2, 'N4_installed_snapshot_is_durable', r5.pc, None, concl, wit, lambda m, w: 'installed-snapshot-not-in-wal')
+                    ck.require(ex2, 'N4_installed_snapshot_is_durable', r5.pc, None, ct == t1, wit, lambda m, w: 'installed-snapshot-term-lost')
+                    n4 += 1
+if n4 == 0:
+    ck.inconclusive.append('vacuous: N4 never instantiated')
+
 # ------------------------------------------------------------------ native replay on real files
 for v in ck.violations:
     w = v['witness']
@@ -451,6 +548,10 @@ for v in ck.violations:
             v['replayed'] = rep.get('replay1_ok') is False or rep.get('replay1_matches') is False
         else:
             v['replayed'] = rep.get('replay2_ok') is False or rep.get('new_record_recovered') is False or rep.get('replay2_prefix_matches') is False
+    elif w.get('snapshot_install'):
+        rep = Replay.call({'op': 'raft_snapshot_install_restart', 'entries': w['entries'], 'own': w['own']})
+        v['native'] = rep
+        v['replayed'] = rep.get('violates')
     elif w.get('leader_accepts'):
         rep = Replay.call({'op': 'raft_leader_accepts', **w})
         v['native'] = rep
